@@ -34,7 +34,9 @@ SourceEmit ==
              /\ srcInTxn' = (it.k = "multi")
      \/ /\ srcInTxn
         \* (a source transaction that touches two databases carries the SELECT inside the group)
-        /\ \E it \in {[k |-> "cmd", d |-> 0], [k |-> "exec", d |-> 0]} \cup {[k |-> "sel", d |-> x] : x \in DBs} :
+        \* (and commands the filter removes - the bookkeeping writes of an upstream instance of the tool are the last
+        \* command of each of its transactions)
+        /\ \E it \in {[k |-> "cmd", d |-> 0], [k |-> "exec", d |-> 0], [k |-> "flt", d |-> 0]} \cup {[k |-> "sel", d |-> x] : x \in DBs} :
              /\ stream' = Append(stream, it)
              /\ srcInTxn' = (it.k # "exec")
   /\ UNCHANGED <<running, crashes, fullResync, hadGood, startOff, startDb, ppos, pcurDB, bypass,
